@@ -70,7 +70,7 @@ async def run_all(ctx, tree, classes, rnd, out, store='mem'):
         n = int(q.target.split('/')[-1])
         L, v = ver[n]
         await oc.send(peers.response_head(200, 'OK', [('Content-Length', str(L)), ('Cache-Control', 'max-age=3600'), ('Date', peers.http_date()),
-                                                      ('X-Verif-Origin', '1')]) + peers.body_bytes(v, L))
+                                                      ('ETag', '"r%d"' % n), ('X-Verif-Origin', '1')]) + peers.body_bytes(v, L))
         return False
     origin = await peers.Origin(rec, responder).start()
 
@@ -84,9 +84,12 @@ async def run_all(ctx, tree, classes, rnd, out, store='mem'):
         if c['par']['cached']:
             await peers.simple_get(rec, sq.port, url, vid='%d.0' % n)
         sep = r0.choice([',', ', ', ' ,'])
-        r = await peers.simple_get(rec, sq.port, url, headers=[('Range', 'bytes=' + sep.join(t for t, _ in specs))], vid='%d.1' % n)
+        # If-Range (cached objects): the validator of the stored entity, or another one - then the Range header is to be ignored
+        ifr = r0.choice(['none', 'none', 'match', 'mismatch']) if c['par']['cached'] else 'none'
+        hs = [('Range', 'bytes=' + sep.join(t for t, _ in specs))] + ([('If-Range', '"r%d"' % n if ifr == 'match' else '"other"')] if ifr != 'none' else [])
+        r = await peers.simple_get(rec, sq.port, url, headers=hs, vid='%d.1' % n)
         case = {'status': r.status or 0, 'specs': [s for _, s in specs], 'len': L, 'parts': [], 'fullOk': False,
-                'range': 'bytes=' + sep.join(t for t, _ in specs), 'cached': c['par']['cached'], 'pred': c['pred'], 'store': store}
+                'range': 'bytes=' + sep.join(t for t, _ in specs), 'cached': c['par']['cached'], 'pred': c['pred'] if ifr != 'mismatch' else 'any', 'store': store, 'ifrange': ifr}
         if r.status == 206:
             case['parts'] = parse_parts(r, v)
         elif r.status == 200:
@@ -142,9 +145,11 @@ def run(ctx):
     ctx.cov['drift_total'] = nd
     ctx.cov['impl_distinct'] = len({json.dumps([c['range'], c['len'], c['cached']]) for c in out})
     ctx.cov['by_status'] = {str(s): sum(1 for c in out if c['status'] == s) for s in sorted({c['status'] for c in out})}
+    ctx.cov['by_if_range'] = {k: sum(1 for c in out if c.get('ifrange') == k) for k in ('none', 'match', 'mismatch')}
+    ctx.cov['if_range_mismatch_answered_200'] = sum(1 for c in out if c.get('ifrange') == 'mismatch' and c['status'] == 200)
     ctx.cov['multipart_206'] = sum(1 for c in out if c['status'] == 206 and len(c['parts']) > 1)
     for c in out[:2]:
         ctx.sample(c)
-    ctx.cov['rule'] = ('classes = RangeScen.tla: every list of one or two range-specs (first-last, first-, -suffix) over positions {0,1,mid,L-1,L,L+10}, cached or not (memory cache; a sample also from a rock and a ufs cache_dir), '
+    ctx.cov['rule'] = ('classes = RangeScen.tla: every list of one or two range-specs (first-last, first-, -suffix) over positions {0,1,mid,L-1,L,L+10}, cached or not, with and without If-Range (matching / other validator) (memory cache; a sample also from a rock and a ufs cache_dir), '
                        'plus seeded three-spec lists; object lengths on the lattice; each answer (single part, multipart/byteranges, 200, 416) is parsed by the '
                        'driver and judged by TLC with RangeResp.tla. Non-trivial = distinct (Range header, length, cached).')
